@@ -242,12 +242,13 @@ def check(prog: Program, tier: str) -> Result:
     _r19_3(prog, res)
     _r19_4(prog, res)
     _r19_5(prog, res)
+    _r19_6(prog, res)
     # a renamed binding is rewritten as ONE transaction (R19.3); that only keeps definition and uses together if the
     # scheduler applies a transaction wholly or not at all - decided by the C10 check, adopted here
     from . import c10 as _c10
     res.adopt(_c10.check(prog, tier), {"R10.1", "R10.3", "R10.6"}, "R19.3",
               "a rename is consistent only if its transaction is applied as a whole or not at all")
-    res.floors.update({"R19.1": 8, "R19.2": 4, "R19.3": 2, "R19.4": 1, "R19.5": 1})
+    res.floors.update({"R19.1": 8, "R19.2": 4, "R19.3": 2, "R19.4": 1, "R19.5": 1, "R19.6": 1})
     res.analysed.update({"named_node_constructions_reaching_output": n_ctor, "guarded_name_generators": sorted(f"{a}.{b}" for a, b in gens)})
     return res
 
@@ -464,21 +465,45 @@ def _template_binders(prog: Program, res: Result) -> None:
                             "captured / overwritten, and a template cannot test for it")
 
 
+def _expand(prog: Program, fn: Func, e: ast.AST, depth: int = 0) -> str:
+    """Text of an expression with single-definition locals and single-return repository helpers inlined."""
+    t = norm(e)
+    if depth > 3:
+        return t
+    for x in ast.walk(e):
+        if isinstance(x, ast.Name) and isinstance(x.ctx, ast.Load):
+            ds = [d for _, d in assignments(fn, x.id) if d is not None]
+            if len(ds) == 1 and ds[0] is not e:
+                t += " <- " + _expand(prog, fn, ds[0], depth + 1)
+        if isinstance(x, ast.Call):
+            r = prog.resolve_call(x.func, fn.mod, fn)
+            if r and r[0] == "fn" and r[1].mod.name == fn.mod.name:
+                rets = [y for y in walk_own(r[1].node) if isinstance(y, ast.Return) and y.value is not None]
+                if len(rets) == 1:
+                    t += " <- " + _expand(prog, r[1], rets[0].value, depth + 1)
+    return t
+
+
 def _r19_2(prog: Program, res: Result) -> None:
     need = {"PYTHON_KEYWORDS": "keywords", "BUILTIN_FUNCTIONS": "builtins", "get_imported_names": "imported names"}
     for m, q, extra in (("fixes", "align_variable_names_with_convention", {"get_defined_names": "defined names"}), ("fixes", "_fix_variable_names", {})):
         fn = prog.func(m, q)
-        bl = [(s, v) for s, v in assignments(fn, "blacklisted_names") if v is not None]
-        if not bl:
-            res.bad("R19.2", fn.loc(), fn.fq, "blacklist", "no blacklist of forbidden new names")
+        # the blacklist is the collection the NEW names are tested against: `X.isdisjoint(substitutes)` / `substitute in X`
+        tests = []
+        for n in walk_own(fn.node):
+            if isinstance(n, ast.Call) and isinstance(n.func, ast.Attribute) and n.func.attr == "isdisjoint" and n.args and "substitute" in norm(n.args[0]):
+                tests.append((n, n.func.value))
+            if isinstance(n, ast.Compare) and len(n.ops) == 1 and isinstance(n.ops[0], (ast.In, ast.NotIn)) and "substitute" in norm(n.left) \
+                    and not isinstance(n.comparators[0], (ast.Tuple, ast.List, ast.Set, ast.Constant)):
+                tests.append((n, n.comparators[0]))
+        if not tests:
+            res.bad("R19.2", fn.loc(), fn.fq, "blacklist applied", "new names are not tested against any collection of forbidden names")
             continue
-        t = norm(bl[0][1])
+        site, coll = tests[0]
+        t = _expand(prog, fn, coll)
         for key, what in {**need, **extra}.items():
-            res.decide(key in t, "R19.2", fn.loc(bl[0][0]), fn.fq, f"blacklist contains {what}", "component present" if key in t else f"new names are not checked against {what}")
-        # the blacklist is applied to the substitute before anything is renamed
-        applied = any(isinstance(n, (ast.Compare, ast.Call)) and "blacklisted_names" in norm(n) and ("isdisjoint" in norm(n) or " in blacklisted_names" in norm(n))
-                      for n in walk_own(fn.node))
-        res.decide(applied, "R19.2", fn.loc(), fn.fq, "blacklist applied", "substitutes are tested against it" if applied else "blacklist is computed but never applied to the new names")
+            res.decide(key in t, "R19.2", fn.loc(site), fn.fq, f"blacklist contains {what}", "component present" if key in t else f"new names are not checked against {what}")
+        res.ok("R19.2", fn.loc(site), fn.fq, "blacklist applied", f"substitutes are tested against it ({short(site, 50)})")
 
 
 def _r19_3(prog: Program, res: Result) -> None:
@@ -495,6 +520,69 @@ def _r19_3(prog: Program, res: Result) -> None:
         res.decide(ok, "R19.3", fn.loc(y), fn.fq, short(y, 60),
                    "the definition and all its uses share one transaction id (stepped once per renamed name, outside the loop over its nodes)" if ok else
                    "the transaction id changes between the nodes of one renamed binding: the definition can be renamed without its uses")
+
+
+def _r19_6(prog: Program, res: Result) -> None:
+    """Delete only what was redirected: fixes._fix_variable_names silently refuses to rename anything TO a name of its
+    blacklist (imports, builtins, keywords).  A caller that renames the uses of a definition and then deletes the
+    definition must test the new name against the same blacklist before it marks the definition for deletion -
+    otherwise the uses keep the old name and the definition is gone."""
+    fv = prog.funcs.get(("fixes", "_fix_variable_names"))
+    if fv is None:
+        raise AnalysisError("anchor fixes._fix_variable_names not found")
+    # the refusal: `if substitute in V: continue`
+    black = None
+    for i in walk_own(fv.node):
+        if isinstance(i, ast.If) and i.body and isinstance(i.body[-1], ast.Continue) and isinstance(i.test, ast.Compare) \
+                and isinstance(i.test.ops[0], ast.In) and isinstance(i.test.comparators[0], ast.Name):
+            v = i.test.comparators[0].id
+            defs = [d for _, d in assignments(fv, v) if d is not None]
+            if len(defs) == 1:
+                black = defs[0]
+    if black is None:
+        res.ok("R19.6", fv.loc(), fv.fq, "refusal of blacklisted new names", "_fix_variable_names refuses nothing", trivial=True)
+        return
+
+    def source_of(e: ast.AST, fn: Func) -> frozenset:
+        """the components a blacklist expression is made of: repository callees and CONSTANT tables, helpers inlined"""
+        t = _expand(prog, fn, e)
+        return frozenset(re.findall(r"\b(?:[a-z_]+\.)?(?:get_\w+|[A-Z][A-Z_]{3,})\b", t))
+    want = source_of(black, fv)
+    n = 0
+    for fn in prog.funcs.values():
+        calls = [c for c in prog.calls_in(fn) if (prog.resolve_call(c.func, fn.mod, fn) or (None, None))[1] is fv]
+        removes = [c for c in prog.calls_in(fn) if (prog.dotted(c.func) or "").endswith("remove_nodes") and len(c.args) >= 2 and isinstance(c.args[1], ast.Name)]
+        if not calls or not removes:
+            continue
+        dvar = removes[0].args[1].id
+        for add in [c for c in prog.calls_in(fn) if isinstance(c.func, ast.Attribute) and c.func.attr == "add" and norm(c.func.value) == dvar]:
+            n += 1
+            # the new name recorded next to the deletion: <dict>[old] = <new>
+            loop = parent(add)
+            while loop is not None and not isinstance(loop, ast.For):
+                loop = parent(loop)
+            new_exprs = [norm(a.value) for a in (ast.walk(loop) if loop is not None else []) if isinstance(a, ast.Assign) and isinstance(a.targets[0], ast.Subscript)]
+            ok = False
+            outer = parent(loop) if loop is not None else None
+            scope_stmts = []
+            a = loop
+            while a is not None and a is not fn.node:
+                p_ = parent(a)
+                for fld in ("body", "orelse"):
+                    lst = getattr(p_, fld, None)
+                    if isinstance(lst, list) and a in lst:
+                        scope_stmts.extend(lst[:lst.index(a)])
+                a = p_
+            for i in scope_stmts:
+                if isinstance(i, ast.If) and i.body and isinstance(i.body[-1], (ast.Continue, ast.Return)) and isinstance(i.test, ast.Compare) \
+                        and isinstance(i.test.ops[0], ast.In) and norm(i.test.left) in new_exprs and want <= source_of(i.test.comparators[0], fn):
+                    ok = True
+            res.decide(ok, "R19.6", fn.loc(add), fn.fq, f"{short(add, 40)} (uses redirected to {new_exprs[:1]})",
+                       f"skipped when the new name is one {fv.name} refuses ({sorted(want)})" if ok else
+                       f"{fv.name} refuses to rename to names of {sorted(want)}; here the definition is marked for deletion without that test: with `def sum` and an identical "
+                       "`def total`, total is deleted while its uses keep calling total")
+    if n == 0:
+        res.ok("R19.6", fv.loc(), fv.fq, "delete-after-rename sites", "none", trivial=True)
 
 
 def _r19_5(prog: Program, res: Result) -> None:
@@ -575,6 +663,10 @@ def _within(n, container) -> bool:
 from ..selftest import Variant  # noqa: E402
 
 VARIANTS: List[Variant] = [
+    Variant("duplicate-deleted-although-uses-not-redirected", "FIRE", "fixes",
+            "        if replacement.name in _names_never_substituted(root):\n            continue  # The uses of the duplicates cannot be redirected to it, so they must stay\n", "", "R19.6"),
+    Variant("rename-blacklist-inlined-again", "SILENT", "fixes",
+            "    blacklisted_names = _names_never_substituted(ast_tree)\n", "    blacklisted_names = _names_never_substituted(ast_tree) | set()\n"),
     Variant("groups-with-two-old-names-rewritten", "FIRE", "fixes",
             "        if len(old_names) > 1:\n            continue  # Two different names, e.g. fooBar and FooBar, must not become the same name\n", "", "R19.5"),
     Variant("moved-static-method-checked-against-functions-only", "FIRE", "object_oriented",
